@@ -82,7 +82,7 @@ type Axiom struct {
 	PkgPath string
 }
 
-var reCalls = regexp.MustCompile(`(?:calls|last)\("([^"]+)"\)`)
+var reCalls = regexp.MustCompile(`(?:calls|last|fails)\("([^"]+)"\)`)
 
 // LoadContracts reads every verif_contracts.go below the repository.
 func (w *World) LoadContracts() error {
